@@ -242,4 +242,18 @@ theorem unquote_plain_open (q : Nat) (hq : q = 34 ∨ q = 39) (body : Bytes) (hn
   simp only [hc, Bool.false_eq_true, if_false, hmulti]
   simp [hlq, List.isPrefixOf]
 
+/-! ### the known divergence: a lone surrogate escape -/
+
+/-- `"\ud800"`: `literal.Unquote` rejects it … -/
+theorem unquote_lone_surrogate : ∀ v, unquote [34, 92, 117, 100, 56, 48, 48, 34] ≠ .ok v := by
+  intro v
+  simp [unquote, parseQuotes, hashRun, QuoteInfo.unquote, isSimple, decodeRune, unquoteLoop,
+    unquoteCharSur, unquoteChar, unquoteEscape, hexVal, unhexByte, hasClosingDelimPrefix,
+    QuoteInfo.closing, QuoteInfo.numChar, hashes, List.isPrefixOf]
+
+/-- … while the scanner reads it as one error-free STRING token -/
+theorem scanTok_lone_surrogate :
+    scanTok ⟨false, false⟩ ⟨fun _ => false, fun _ => false⟩ 8 20 ⟨[34, 92, 117, 100, 56, 48, 48, 34], false, []⟩ =
+      some (⟨.STRING, 0, 8, [34, 92, 117, 100, 56, 48, 48, 34], false⟩, ⟨[], true, []⟩) := by rfl
+
 end CueVerif.Scan
